@@ -650,10 +650,11 @@ def execute_estimation(
             joblib.delayed(_execute_estimation)(
                 qtomography,
                 empi_dists_seq,
-                simulation_setting.estimator,
-                simulation_setting.loss,
+                # every task mutates loss and algo: give each its own copy (joblib may run the tasks as threads)
+                copy.deepcopy(simulation_setting.estimator),
+                copy.deepcopy(simulation_setting.loss),
                 simulation_setting.loss_option,
-                simulation_setting.algo,
+                copy.deepcopy(simulation_setting.algo),
                 simulation_setting.algo_option,
                 is_computation_time_required,
                 is_detailed_results_required,
